@@ -372,7 +372,8 @@ class Env:
         if self.mode == "whole":
             out = []
             for which in ("A", "B") if need_u else ("A",):
-                with bnp.open(self.path(which), lazy=lazy, buffer_type=self.buffer_type) as f:
+                # the lazy side of the whole read is the default (lazy=None), the chunked one asks for lazy=True
+                with bnp.open(self.path(which), lazy=(None if lazy else False), buffer_type=self.buffer_type) as f:
                     out.append(f.read())
             return out if need_u else out + [None]
         size = int(self.mode.split(":")[1])
@@ -867,19 +868,17 @@ def plan(tier):
             if fmt in MAIN:
                 tasks.append((2, fmt, cs[0], "mini"))
         else:
-            for mode in ["whole"] + cs:
-                tasks += [(0, fmt, mode, "wide"), (1, fmt, mode, "wide")]
-                samples.append((fmt, mode, 60, 6))
+            tasks += [(0, fmt, "whole", "wide"), (1, fmt, "whole", "wide"), (0, fmt, cs[0], "wide"), (1, fmt, cs[0], "wide"),
+                      (0, fmt, cs[1], "core"), (1, fmt, cs[1], "core")]
+            samples += [(fmt, m, 40, 6) for m in ["whole"] + cs]
             tasks.append((2, fmt, "whole", "core"))
             tasks += [(2, fmt, m, "mini") for m in cs]
-            tasks.append((3, fmt, "whole", "mini"))
+            if fmt not in ("bed6", "bed12", "narrowPeak", "sizes"):   # these share every code path with bed / bdg
+                tasks.append((3, fmt, "whole", "mini"))
             if fmt == "bed":
                 tasks += [(2, fmt, "whole", "wide"), (3, fmt, "whole", "core"), (4, fmt, "whole", "mini")]
+            if fmt in MAIN:
                 tasks += [(3, fmt, cs[0], "mini")]
-            elif fmt in MAIN:
-                tasks += [(3, fmt, cs[0], "mini")]
-            if fmt == "fastq":
-                tasks += [(3, fmt, "whole", "core")]
     tasks.sort(key=lambda t: t[0])
     return tasks, samples
 
@@ -892,7 +891,7 @@ def run(tier="quick", seed=0):
                     "final full observation (len, every field, tolist, written bytes) compared; per format x {whole read, "
                     "chunked read}; longer programs sampled with the seed.  distinct = distinct (format, read mode, "
                     "program); non-trivial = program of length >= 1",
-                    budget_s=(55 if tier == "quick" else 540))
+                    budget_s=(55 if tier == "quick" else 570))
     import logging
     logging.getLogger("bionumpy").setLevel(logging.ERROR)   # the library logs a warning per read/write
     tasks, samples = plan(tier)
